@@ -35,7 +35,7 @@ def scope_lists():
     return out
 
 
-def creds_reps(sys, dom, proj, roles, spelling):
+def creds_reps(sys, dom, proj, roles, spelling, extra_domains=False):
     """abstract credentials and the three concrete representations"""
     from oslo_context import context
     kw = {'roles': list(roles), 'user_id': 'u'}
@@ -45,6 +45,10 @@ def creds_reps(sys, dom, proj, roles, spelling):
         kw['domain_id'] = 'd1'
     if proj:
         kw['project_id'] = 'p1'
+    if extra_domains:
+        # further attributes that NAME a domain do not make the token domain-scoped (nor undo it)
+        kw['project_domain_id'] = 'd1'
+        kw['user_domain_id'] = 'd1'
     reps = []
     # every context carries the same request id: two requests are told apart by what they hold, not by an id
     ctx = context.RequestContext(**{k: v for k, v in kw.items() if k != 'user_id'}, user_id='u', request_id='req-00000000-0000-0000-0000-000000000001')
@@ -58,6 +62,9 @@ def creds_reps(sys, dom, proj, roles, spelling):
         d['domain_id'] = 'd1'
     if proj:
         d['project_id'] = 'p1'
+    if extra_domains:
+        d['project_domain_id'] = 'd1'
+        d['user_domain_id'] = 'd1'
     reps.append(('dict', dict(d), None))
     return reps
 
@@ -72,10 +79,10 @@ def run(ctx):
     for scopes in scope_lists():
         for sys, dom, proj in itertools.product((0, 1), repeat=3):
             for spelling in ('system', 'system_scope'):
-                for enf in (True, False):
-                    # one long-lived enforcer per configuration: the rows below are a history on it
-                    # (do_raise off before do_raise on, different bodies set with set_rules)
-                    live = {}
+                # one long-lived enforcer per configuration: the rows below are a history on it (do_raise off
+                # before do_raise on, different bodies set with set_rules, the enforce_scope option switched)
+                live = {}
+                for enf in rng.choice([(True, False), (False, True), (True, False, True), (False, True, False)]):
                     for doraise in (0, 1):
                         for allow in (0, 1):
                             for override in (0, 1):
@@ -87,7 +94,7 @@ def run(ctx):
                                     if q and two_kinds and rng.random() > 0.3:
                                         continue
                                     roles = ['test'] if allow else ['other']
-                                    for rep, abstract, obj in creds_reps(sys, dom, proj, roles, spelling):
+                                    for rep, abstract, obj in creds_reps(sys, dom, proj, roles, spelling, extra_domains=rng.random() < 0.3):
                                         if rep != 'dict' and spelling == 'system':
                                             continue      # the legacy spelling only exists for plain dicts
                                         # registered default role:test (or its negation); the file override, when
@@ -112,6 +119,7 @@ def run(ctx):
                                                 live[lk] = ev.make_enforcer({'p:x': ev.rule_text(body)}, ('opt', None),
                                                                             [(n, list(sc), 'role:test') for n, sc in registered], enf)
                                             enforcer = live[lk]
+                                            enforcer.conf.set_override('enforce_scope', bool(enf), group='oslo_policy')
                                             enforcer.set_rules(_pol.Rules.from_dict({'p:x': ev.rule_text(body)}, enforcer.default_rule), use_conf=False)
                                         c = ec.enforce_case(rules, call, {}, abstract, dflt=('opt', None), registered=registered,
                                                             enforce_scope=enf, check_scopes=list(scopes) if by == 'check' else (),
